@@ -791,7 +791,7 @@ MANIFEST = {
     "text": "Fault enumeration: the real metrics.EsClient.guarded and each of the 12 public EsClient store operations run against a scripted client that raises the real "
     "elasticsearch / elastic_transport exceptions and helpers.BulkIndexError payloads: every outcome sequence up to length 4 (quick) / 5 (thorough) over an alphabet of 11 "
     "(15 for bulk) outcomes, continued by success or by a transient fault until the retry budget is exhausted, plus seeded random sequences up to length 12 over an extended "
-    "alphabet; a sample of sequences additionally runs through rally's real sync client, transport and helpers.bulk with a scripted HTTP node. A reference interpreter of the "
+    "alphabet; a sample of sequences additionally runs through rally's real sync client, transport and helpers.bulk with a scripted HTTP node (bulk answers keyed by the action the client wrote). A reference interpreter of the "
     "statement checks call count (<= 11), no call after success, no retry after non-retryable errors, retry after transient ones, one exponentially growing pause between "
     "attempts, identical calls, the first success's result, and Rally errors naming the cause. Holds on the sequences enumerated, not beyond.",
     "note": "Trusts the reference interpreter, the outcome classification by exception class / status stated in the assumptions, and the lenient reading of 'names the cause'. "
